@@ -115,9 +115,34 @@ def pool_history(rng, cid):
     return Case(cid, ops, {})
 
 
+def transition_history(rng, cid):
+    """the per-ip limit enabled / raised / lowered / disabled at run time with slots held"""
+    ops = [["new", rng.choice([3, 4, 5, 10]), rng.choice([0, 0, 3])]]
+    toks = [0, 1, 2, 3]
+    for t in toks:
+        ops.append(["accept", t])
+    c, i = rng.choice([0, 1]), rng.choice([0, 1, 2])
+    for _ in range(rng.randint(3, 10)):
+        x = rng.random()
+        if x < 0.55:
+            ops.append(["track", rng.choice(toks), c if rng.random() < 0.8 else 1 - c, i if rng.random() < 0.8 else rng.choice([0, 1, 2]), 0, 0])
+        elif x < 0.85:
+            ops.append(["setlimit", rng.choice([0, 1, 2, 2, 3])])
+        elif x < 0.93:
+            t = rng.choice(toks)
+            ops += [["close", t], ["accept", t]]
+        else:
+            ops.append(["dump"])
+    ops.append(["dump"])
+    for t in toks:
+        ops.append(["close", t])
+    ops.append(["dump"])
+    return Case(cid, ops, {})
+
+
 def gen_cases(rng, tier):
     n = {"quick": 2000, "thorough": 80000, "search": 12000}.get(tier, 2000)
-    return [history(rng, "h%d" % i) if i % 8 else pool_history(rng, "p%d" % i) for i in range(n)]
+    return [transition_history(rng, "t%d" % i) if i % 8 == 4 else history(rng, "h%d" % i) if i % 8 else pool_history(rng, "p%d" % i) for i in range(n)]
 
 
 def corpus_cases():
@@ -130,6 +155,9 @@ def corpus_cases():
                     c.id = "k" + c.id
                     out.append(c)
     return out
+
+
+NKINDS = 40       # outcomes of harness/src/bin/c16bb.rs
 
 
 def extra_stage(tier, rng, work):
@@ -145,9 +173,20 @@ def extra_stage(tier, rng, work):
         cfgs = [(rng.randrange(1, 10 ** 6), mx, lim, 40, ev, zo, "k", 1)
                 for (mx, lim, ev, zo) in [(1, 0, 0, 0), (1, 1, 0, 0), (2, 0, 0, 0), (2, 1, 1, 0), (2, 2, 0, 3), (3, 1, 0, 0),
                                           (5, 0, 1, 0), (5, 1, 0, 3), (5, 2, 0, 0), (8, 3, 1, 3), (3, 0, 0, 3), (4, 2, 1, 0)]]
+        kinds = list(range(NKINDS))
+        rng.shuffle(kinds)
+        cfgs += [(rng.randrange(1, 10 ** 6), mx, lim, len(part), 0, 0, "k" + "_".join(map(str, part)), 1)
+                 for part, (mx, lim) in zip([kinds[0::2], kinds[1::2]], [(4, 1), (6, 0)])]
     else:
-        cfgs = [(rng.randrange(1, 10 ** 6), 1, 0, 10, 0, 0, "k", 0), (rng.randrange(1, 10 ** 6), 2, 1, 10, 0, 0, "k", 0),
-                (rng.randrange(1, 10 ** 6), 4, 2, 10, 1, 3, "k", 0)]
+        # quick: every outcome once (order seeded), a third each to three workers that differ in max_connections,
+        # per-ip limit, eviction and zombie check
+        kinds = list(range(NKINDS))
+        rng.shuffle(kinds)
+        parts = [kinds[0::3], kinds[1::3], kinds[2::3]]
+        shape = [(3, 0, 0, 0), (4, 1, 0, 0), (5, 2, 1, 3)]
+        cfgs = [(rng.randrange(1, 10 ** 6), mx, lim, len(part), ev, zo, "k" + "_".join(map(str, part)), 0)
+                for part, (mx, lim, ev, zo) in zip(parts, shape)]
+        cfgs.append((rng.randrange(1, 10 ** 6), 1, 0, 6, 0, 0, "k0_21_2_1_21_16", 0))     # max_connections = 1
     cases = [Case("bb%d_%d_%d" % (i, c[1], c[2]), [["bb"] + list(c)], {}) for i, c in enumerate(cfgs)]
     outs, problems = vlib.run_harness(HARNESS_BIN, cases, os.path.join(work, "bb"), "release", timeout=1200, shards=len(cases))
     viols, fails = [], list(problems)
